@@ -283,7 +283,7 @@ func upExec(c *hlib.RunCtx, t *simrt.Tape) (*hlib.Violation, int) {
 		// nothing could rebuild it), and nothing cut short is sent.
 		for _, p := range names {
 			mf := m.roundFiles[p]
-			if exists(p) || hadBefore[mf.week] || m.viol != nil {
+			if exists(p) || !mf.parseable || hadBefore[mf.week] || m.viol != nil {
 				continue
 			}
 			for _, rp := range []string{filepath.Join(m.loc, "local."+mf.week+".json"), filepath.Join(m.loc, mf.week+".json")} {
@@ -309,7 +309,9 @@ func upExec(c *hlib.RunCtx, t *simrt.Tape) (*hlib.Violation, int) {
 		}
 		for _, p := range names {
 			mf := m.roundFiles[p]
-			if exists(p) || m.reportExists(mf.week) || hadBefore[mf.week] || m.viol != nil {
+			if exists(p) || !mf.parseable || m.reportExists(mf.week) || hadBefore[mf.week] || m.viol != nil {
+				// (a damaged file whose week the model cannot tell may still be readable for the
+				// library, which is more lenient in places: which report it went into is not judged)
 				continue
 			}
 			if at, ok := reportAt[mf.week]; ok && at < removedAt[p] {
@@ -406,15 +408,12 @@ func damageBytes(t *simrt.Tape, data []byte) {
 func (m *machine) checkNoInflation() {
 	for _, mf := range m.roundFiles {
 		if !mf.parseable {
-			// A file no reader of the layout can decode, or one that does not say
-			// when it ends, cannot have contributed to any week's report: the other
-			// files are judged. A file that only the strict decoder refuses may
-			// yield garbage counts for some week: totality only.
-			d, err := refformat.DecodeDoc(mf.data)
-			if err != nil {
-				continue
-			}
-			if _, terr := time.Parse(time.RFC3339, d.Meta["TimeEnd"]); terr != nil {
+			// A file that does not begin with the format's first line is no counter
+			// file for any reader: it cannot have contributed to a report, the other
+			// files are judged. Any other file the model cannot read (damaged, or
+			// without a usable end) may still be read by the library, more lenient in
+			// places than the model's decoders, and yield counts: totality only.
+			if !bytes.HasPrefix(mf.data, []byte(refformat.Prefix)) {
 				continue
 			}
 			return
